@@ -23,6 +23,7 @@ type Runner struct {
 	restoreTag  uint64
 	lastCut     *Node
 	isoSet      map[*Node]bool
+	tailDown    map[*Node]bool // servers (a minority of the voters) that stay down through the quiet tail
 }
 
 func (rn *Runner) sleepUntil(ms int) {
@@ -189,6 +190,22 @@ func (rn *Runner) doStep(st Step) {
 		rn.leaseCut(int(st.V[0]))
 	case "pv-isolate":
 		rn.pvIsolate(st.N)
+	case "pv-asym":
+		// the isolated servers' links come back in one direction only: their requests (pre-votes)
+		// reach everybody and are answered, nothing the others send (heartbeats) reaches them yet
+		c.Net.Heal()
+		for _, i := range st.N {
+			iso := rn.node(i)
+			if iso == nil {
+				continue
+			}
+			for _, o := range c.Nodes {
+				if o != iso {
+					c.Net.SetReqCut(o.name, iso.name, true)
+				}
+			}
+		}
+		c.W.Log(Ev{K: "m.pv.asym"})
 	case "pv-check":
 		for _, nd := range c.Nodes {
 			c.Reading(nd, "pv-after")
@@ -492,6 +509,10 @@ func Run(sc Scenario, w *World) *Runner {
 	rn.bgCalls.Wait() // clean shutdowns still in progress must finish before their servers can restart
 	if !sc.NoTailRestart {
 		for _, nd := range c.Nodes {
+			if rn.tailDown[nd] {
+				w.Log(Ev{K: "m.tail.staysdown", X: nd.name})
+				continue
+			}
 			rn.restart(nd)
 		}
 	}
